@@ -585,7 +585,7 @@ def replay(run, obj):
         print("STORED-HISTORY property=%s predicate=%s: %s by LinTrace (consumed %d of %d lines)" % (
             obj["property"], obj["predicate"], "still REJECTED" if still else "now accepted", hw[0] - 1, hw[1]))
     drv = obj.get("driver") or {}
-    reruns, hits = 5, 0
+    reruns, hits = 8, 0
     if drv.get("args"):
         exe = run.build_harness(race=True) if drv.get("race") else run.build_harness()
         a = drv["args"]
@@ -605,7 +605,9 @@ def replay(run, obj):
                 hits += 1
         preds = sorted({v["predicate"] for v in run.violations[before:]})
         print("RERUN property=%s: %d of %d re-runs of the driver (same parameters, current tree) showed a violation %s" % (obj["property"], hits, reruns, preds))
-    if still or (not hist and hits > 0):
+    # the verdict about the CURRENT tree comes from re-running the driver; the stored history is the witness for the tree it was
+    # recorded on (a concurrent schedule cannot be re-forced) and is only re-validated, never counted against another tree
+    if hits > 0 or (still and not drv.get("args")):
         print("REPRODUCED property=%s predicate=%s" % (obj["property"], obj["predicate"]))
         return 1
     print("NOT-REPRODUCED property=%s predicate=%s" % (obj["property"], obj["predicate"]))
